@@ -14,7 +14,7 @@ Theorems on the server model `Iec.Srv104` (every frame the model writes is produ
 15-bit counters are inverse for every value), `sendI_spec` (frame shape, N(S) = V(S),
 N(R) = V(R), V(S) advances by exactly one mod 32768 iff the write succeeded - so the n-th
 I-frame of a connection carries (s0 + n - 1) mod 32768 from any start s0, the wrap being
-the `% 32768`), `sendS_spec`, `u_frames`.  V(R) advances exactly when both sequence checks
+the `% 32768`; stated over histories as `nth_iframe_ns`), `sendS_spec`, `u_frames`.  V(R) advances exactly when both sequence checks
 pass: C05 `delivery` (same code path).  Client role (`Iec.Cli104`, tied by its own differential):
 `client_sendI_spec`, `client_sendS_spec`, `client_u_frames` - the same laws for cs104_connection.c.
 -/
@@ -75,6 +75,57 @@ theorem sendS_spec (s : Slave) (i : Nat) (h1 : (s.conn i).sock.writeFail = false
 theorem u_frames : WellFormed STARTDT_CON ∧ WellFormed STOPDT_CON ∧ WellFormed TESTFR_CON ∧ WellFormed TESTFR_ACT ∧
     STARTDT_CON.getD 2 0 = 0x0b ∧ STOPDT_CON.getD 2 0 = 0x23 ∧ TESTFR_CON.getD 2 0 = 0x83 ∧ TESTFR_ACT.getD 2 0 = 0x43 := by
   unfold WellFormed; decide
+
+/-! ### histories: the n-th I-format APDU -/
+
+/-- the I-format APDU carrying `asdu` with the given counters -/
+def iframe (vs vr : Nat) (asdu : List Nat) : List Nat :=
+  [0x68, asdu.length + 4, seqLo vs, seqHi vs, seqLo vr, seqHi vr] ++ asdu
+
+theorem sendI_keeps (s : Slave) (i : Nat) (hi : i < s.conns.length) (asdu : List Nat) (q : Option (Nat × Nat)) :
+    ((sendI s i asdu q).conn i).sock = (s.conn i).sock ∧ ((sendI s i asdu q).conn i).vr = (s.conn i).vr ∧
+    (sendI s i asdu q).conns.length = s.conns.length := by
+  unfold sendI write
+  simp only
+  split
+  · simp only [Bool.false_eq_true, if_false]
+    refine ⟨?_, ?_, by simp [Slave.setConn]⟩ <;> (rw [conn_setConn _ _ _ hi])
+  · simp only [if_true]
+    have hl : i < (emit s (Obs.tx i ([0x68, (asdu.length + 4) % 256, seqLo (s.conn i).vs, seqHi (s.conn i).vs, seqLo (s.conn i).vr, seqHi (s.conn i).vr] ++ asdu))).conns.length := hi
+    refine ⟨?_, ?_, by simp [Slave.setConn, emit]⟩ <;> (rw [conn_setConn _ _ _ hl]) <;> rfl
+
+/-- **the n-th I-format APDU of a connection carries N(S) = (s0 + n - 1) mod 32768, across the wrap**: any number of
+sends from any starting V(S) write exactly the frames with consecutive send sequence numbers modulo 32768 (and
+N(R) = V(R), unchanged by sending), nothing else. -/
+theorem nth_iframe_ns (asdus : List (List Nat)) : ∀ (s : Slave) (i : Nat), i < s.conns.length →
+    (∀ a ∈ asdus, a.length ≤ 249) → (s.conn i).sock.writeFail = false → (s.conn i).sock.peerClosed = false →
+    (s.conn i).vs < 32768 → (s.conn i).vr < 32768 →
+    (asdus.foldl (fun s a => sendI s i a none) s).log =
+      s.log ++ (asdus.zipIdx.map fun (a, j) => Obs.tx i (iframe (((s.conn i).vs + j) % 32768) (s.conn i).vr a)) := by
+  induction asdus with
+  | nil => intro s i _ _ _ _ _ _; simp
+  | cons a rest ih =>
+    intro s i hi hl h1 h2 hvs hvr
+    obtain ⟨_, _, hok, _⟩ := sendI_spec s i hi a (hl a (by simp)) none hvs hvr
+    obtain ⟨hlog, hvs'⟩ := hok ⟨h1, h2⟩
+    obtain ⟨k1, k2, k3⟩ := sendI_keeps s i hi a none
+    have := ih (sendI s i a none) i (by rw [k3]; exact hi) (fun x hx => hl x (by simp [hx]))
+      (by rw [k1]; exact h1) (by rw [k1]; exact h2) (by rw [hvs']; exact Nat.mod_lt _ (by decide)) (by rw [k2]; exact hvr)
+    simp only [List.foldl_cons]
+    rw [this, hlog, hvs', k2]
+    simp only [List.append_assoc, List.singleton_append]
+    congr 1
+    rw [List.zipIdx_cons]
+    simp only [List.map_cons, Nat.add_zero]
+    have hm : (s.conn i).vs % 32768 = (s.conn i).vs := Nat.mod_eq_of_lt hvs
+    rw [hm]
+    congr 1
+    rw [List.zipIdx_succ, List.map_map]
+    apply List.map_congr_left
+    intro x _
+    simp only [Function.comp, Prod.map]
+    congr 2
+    omega
 
 /-! ### client role (cs104_connection.c) -/
 section Client
